@@ -52,6 +52,52 @@ PROPS["C05"] = {
     "assumptions": ["ASCII case mapping (non-ASCII header strings are outside the model)"],
 }
 
+PROPS["C03"] = {
+    "level_text": "Theorems (Properties/C03.v): a META-THEOREM proved once for every schema and value - marshal then unmarshal into a compatible preset gives the value back up to nil=empty - instantiated on the schemas GENERATED from the code's struct tags by reflection on every run (well-formedness re-established by vm_compute: distinct JSON names, known custom codecs, no ambiguously dropped field); per-kind corollary through the version-2 loaders (presets, JetStream clearing) with the two recorded findings K1/K2 as visible guards and a refutation witness. Tie: random claims of all 7 kinds generated by reflection (all optional sections, int64 extremes, nil vs empty, special/non-ASCII strings, scopes by pointer and by value): real Encode/Decode/typed decoder/re-encode compared field by field (400 per kind) and the model's enc tree / dec value compared with the real payload tree and decoded object in Coq (40 per kind).",
+    "level_note": NOTE_COMMON + "encoding/json's text layer (escaping, number syntax, key case folding beyond ASCII, duplicate keys) is outside the model; free-form generic data is restricted to float64-exact integers.",
+    "assumptions": ["JSON text layer: parse(print(tree)) = tree", "generic data numbers are float64-exact"],
+}
+PROPS["C04"] = {
+    "level_text": "Theorems (Properties/C04.v): for every v1 payload value of the four migratable kinds (shadow schemas generated from the code), every field of the expected mapping table written from the statement is carried to its version-2 place, the result reports version 1, account signing keys become exactly the key set of the list, the result is a well-typed v2 value (so C03 applies to its re-encoding); a member absent from the payload keeps the preset and the legacy limit presets are -1; unknown (deprecated) members never make decoding fail. Tie: random v1compat claims of the five kinds encoded by the real v1 encoder, decoded by v2 Decode/DecodeGeneric, compared with an independently written expected mapping (400 per kind), re-encoded; the v1 enc tree and shadow-decode+migrate compared with the model in Coq (40 per kind).",
+    "level_note": NOTE_COMMON + "Source-network strings are kept ASCII (Unicode white space / case folding outside the model). The v1compat encoder's own schema is generated separately; the cross-schema step (v1 writer -> shadow reader) is covered by the correspondence run, not by a theorem.",
+    "assumptions": ["v1 writer / shadow reader agreement is checked on explored cases only"],
+}
+
+PROPS["C17"] = {
+    "race": True,
+    "level_text": "PARTIAL. Theorems (Properties/C17.v): for any number of threads, any programs and EVERY schedule, if no operation writes the shared store then each thread gets exactly the results and final object of running alone and the store is unchanged; steps of different threads never conflict. The hypothesis is discharged on the inventory GENERATED from the code by go/ssa on every run: no package variable is stored to or through outside initialisation, its value reaches only regexp methods documented concurrency-safe, and the public read-only queries do not store through receiver or arguments. What the model cannot exhibit (races inside the Go runtime, the standard library and nkeys; writes invisible to SSA such as unsafe/reflection) is only exercised: N goroutines on own objects decoded from the same token text and read-only queries on shared objects under the race detector at GOMAXPROCS 1/2/4/16, results compared with a sequential run.",
+    "level_note": "Trusted: Coq kernel + vm_compute; the go/ssa-based translator tools/globalsgen; the Go race detector and memory model; regexp.Regexp / encoding/json / crypto being safe for concurrent use as documented. A new written package variable breaks the generated obligation; a race or a differing result is a concrete failing schedule.",
+    "assumptions": ["standard library and nkeys are safe for concurrent use as documented", "SSA summary sees all stores (no unsafe / reflection / cgo writes)"],
+    "technique": "Coq theorem over all schedules + obligation on a go/ssa-generated inventory; race-detector runs as search support",
+}
+
+PROPS["C12"] = {
+    "level_text": "Theorems (Properties/C12.v, for every hash and printer function): after the stamping of Encode the issuer is the given key, the issue time the given second, kind and version 2 are set, the id is H(print(marshal(standard fields with empty id))); the id is a function of aud/exp/name/nbf/sub (plus issuer and second) only - equal for claims that differ in previous id, kind or payload; the marshalled standard fields determine them (so different fields => different hash pre-image); every other field (by JSON path, read off the generated schema) is unchanged; account imports/exports are a sorted permutation; a failed gate returns no token. Tie: random claims of all kinds with arbitrary pre-existing stamps, before/after Encode (first and repeated), id recomputed with the harness's own SHA-512/256, decoded token; stamping compared with the model in Coq.",
+    "level_note": NOTE_COMMON + "SHA-512/256+base32 and the JSON printer are uninterpreted functions; 'changing a field changes the id' is proved on the pre-image (collision resistance assumed). The clock second is observed by bracketing.",
+    "assumptions": ["SHA-512/256 collision resistance for 'changing any of them changes the id'"],
+}
+PROPS["C13"] = {
+    "level_text": "Theorems (Properties/C13.v): for every schema and value, marshalling is invariant under reordering of every map's entries (enc t (norm_maps v) = enc t v; values with the same sorted representative marshal to the same tree; every permutation of a key-distinct entry list has the same representative) - signing keys included, whose keys the serialiser sorts explicitly; the token is a function of that tree, the printer and the (deterministic) signature function. Tie: equal content built through random insertion permutations of signing keys, revocations, tiers, mappings, export revocations and generic data, encoded repeatedly with the same key: all tokens sharing a decoded issue time are byte-identical; payload trees compared with the model in Coq.",
+    "level_note": NOTE_COMMON + "The Go runtime's randomised map iteration is sampled; the theorem covers all orders. Ed25519 signatures are deterministic (a function in the model).",
+    "assumptions": ["Ed25519 signing is deterministic"],
+}
+PROPS["C14"] = {
+    "level_text": "Theorems (Properties/C14.v): the signing-key set type generated from the code round-trips through marshal/unmarshal for any mix of plain and scoped keys with key, role, description and full template intact (instance of the codec meta-theorem; guard K2 visible); a scope accepts a claim iff it is a user claim issued by the scope's key whose permissions and limits are exactly the zero value; IssueUserJWT's gate holds iff account id / user key / signing key have the right roles, and the claims it encodes carry the given subject, issuer account, name (subject when empty), tags, expiry 0 or the whole second of now+d, and empty permissions. Tie: random key sets (pointer/value scopes, int64 extremes) through real Encode/Decode, user claims with each field set / empty-but-present / absent through ValidateScopedSigner, the full role cube through IssueUserJWT; all compared with the model in Coq.",
+    "level_note": NOTE_COMMON,
+    "assumptions": ["expiry arithmetic within the int64 range"],
+}
+PROPS["C19"] = {
+    "level_text": "Theorems (Properties/C19.v): the v1 role tables generated from the code equal the v1 matrix (incl. cluster/server); the v1 header test holds iff type lower-cases to jwt and the algorithm to ed25519 (the version-2 name is refused); accepted => the signature verifies under the payload's issuer over the payload segment, issuer role permitted, header valid; a signature that does not verify is refused; Encode's gate implies permitted signer and subject roles; the codec meta-theorem instantiated on the seven v1compat schemas generated by reflection (all fields preserved). Tie: random v1 claims of all 7 kinds through v1 Encode/Decode (300 per kind), single-character edits, v2-algorithm headers, forged wrong-role issuers through all 7 decoders with independent Ed25519 verdicts, Encode matrix; compared with the model in Coq.",
+    "level_note": DEC_NOTE,
+    "assumptions": ["EUF-CMA of Ed25519"],
+}
+PROPS["C11"] = {
+    "level_text": "PARTIAL. Theorems (Properties/C11.v): every place where the library indexes a slice or string, dereferences a list entry, or stores into a map that decoding may have left nil (IsContainedIn, Subject/RenamingSubject.Validate, Export token position, cleanSubject, Exports/Imports.Validate, the wildcard loop, Less in Encode's sort, HasExportContainingSubject, DecodeGeneric re-homing, AddMapping, RevokeAt/ClearRevocation, DecorateSeed, ParseDecorated*, DidSign/IsClaimRevoked on nil claims) is modelled with partial primitives and proved never to reach a Panic for any input. Not in the model (named): panics inside encoding/json, base64, regexp, sort, fmt, net/url, time, nkeys; stack exhaustion; out-of-memory - these are exercised only. Tie: every single-node structural mutation of rich payloads of each kind (plus double mutations), correctly signed in both layouts, through every decoder and ~25 public operations under recover(); arbitrary byte strings into every parser; the modelled sites on the same inputs in Coq.",
+    "level_note": NOTE_COMMON + "The site inventory is hand-made from the code (a new unguarded dereference elsewhere is caught only by the mutation stream).",
+    "assumptions": ["standard library and nkeys do not panic on hostile input"],
+    "technique": "Coq theorems over partial-primitive models of the index/deref/nil-map sites + exhaustive single-node payload mutation under recover()",
+}
+
 VAL_NOTE = NOTE_COMMON + ("Key-role tests, url.Parse, net.ParseCIDR, time.Parse, time.LoadLocation and the decoding of embedded activation tokens are Section variables "
     "(theorems hold for all of them); in the correspondence run they are fact tables computed by the harness. strconv.Atoi is modelled concretely. ")
 PROPS["C06"] = {
@@ -79,4 +125,11 @@ def _k3(v):
             and i.get("sub_is_id") is False and i.get("id_in_keys") is True and i.get("impl") is False and i.get("spec") is True)
 
 
-KNOWN_MATCHERS = {"K3": _k3}
+def _known_tag(tag):
+    def f(v):
+        return str(v.get("what", "")).startswith("C03 known:") and tag in ((v.get("input") or {}).get("known") or []) \
+            or str(v.get("what", "")).startswith("C14 known:") and tag in ((v.get("input") or {}).get("known") or [])
+    return f
+
+
+KNOWN_MATCHERS = {"K3": _k3, "K1": _known_tag("K1"), "K2": _known_tag("K2")}
